@@ -186,6 +186,7 @@ def build(obj, conc):
             k = Variant(ci)
             k.id, k.uid, k.name, k.type, k.arches = conc.tok["o"], conc.dashuid + "-" + conc.tok["o"], conc.pretty_dashkid(), "optional", set([conc.arch["x"]])
             v.add(k)
+    _prepare(ci, conc, obj)
     return ci
 
 
@@ -255,12 +256,25 @@ def check_reread(obj, conc, ci, c2):
     return fails
 
 
-def _grow(ci, conc, obj):
+def _prepare(ci, conc, obj):
+    """Before anything is written: a path for an architecture the first top-level variant gets only LATER (not stored while the
+    architecture is outside the variant's set - the documented normalisation - but it stays in the object)."""
+    tops = sorted(n["path"] for n in obj["nodes"] if len(n["path"]) == 1)
+    if tops:
+        v = ci[conc.uid(tops[0])]
+        new = [a for a in ("s390x", "armhfp", "riscv64") if a not in conc.arch.values()][0]
+        getattr(v.paths, conc.cat["c2"])[new] = "%s/%s/prepared" % (v.uid, new)
+
+
+def _grow(ci, conc, obj, reread=False):
     """A legal later edit: a top-level variant gains an architecture and a path for it."""
     top = sorted(n["path"] for n in obj["nodes"] if len(n["path"]) == 1)[0]
     v = ci[conc.uid(top)]
     new = [a for a in ("s390x", "armhfp", "riscv64") if a not in conc.arch.values()][0]
     v.arches.add(new)
+    if reread:
+        # the re-read object never knew the prepared path (it was not stored): the caller supplies it again
+        getattr(v.paths, conc.cat["c2"])[new] = "%s/%s/prepared" % (v.uid, new)
     getattr(v.paths, conc.cat["c1"])[new] = "%s/%s/grown" % (v.uid, new)
     getattr(v.paths, conc.cat["c3"])[new] = "%s/%s/grown3" % (v.uid, new)
 
@@ -275,7 +289,7 @@ def mutate_and_redump(obj, conc, ci, c2):
     want = fresh.dumps()
     for name, o in (("already-written", ci), ("re-read", c2)):
         try:
-            _grow(o, conc, obj)
+            _grow(o, conc, obj, reread=(name == "re-read"))
             got = o.dumps()
         except Exception as exc:
             fails.append("%s object edited and written again: %s: %s" % (name, type(exc).__name__, exc))
@@ -294,6 +308,22 @@ def evaluate(case):
     obj = case["obj"]
     what = "compose %s" % json.dumps({"nodes": [[n["path"], n["type"], n["arches"], n["paths"]] for n in obj["nodes"]],
                                       "dashed": obj["dashed"], "dashkid": obj.get("dashkid", False), "sec": obj["sec"], "rot": conc.rot}, sort_keys=True)[:700]
+    if obj["dashed"]:
+        # earlier in the same process ANOTHER compose was read in which the dashed UID of this one is the UID of a (grand)child
+        # (Server + optional -> Server-optional): nothing of it may be remembered
+        try:
+            from productmd.composeinfo import Variant
+            other = build({"nodes": [], "dashed": False, "sec": obj["sec"]}, conc)
+            parts = conc.dashuid.split("-")
+            par = other.variants
+            for i, part in enumerate(parts):
+                k = Variant(other)
+                k.id, k.uid, k.name, k.type, k.arches = part, "-".join(parts[:i + 1]), part, "variant" if i == 0 else "optional", set([conc.arch["x"]])
+                par.add(k)
+                par = k
+            ComposeInfo().loads(other.dumps())
+        except Exception:
+            pass
     try:
         ci = build(obj, conc)
         text = ci.dumps()
